@@ -9,8 +9,9 @@
      run pv jl T inp : what a parser with table T answers for the input inp (environment + argv / object /
         config string): rejection, exit, or the parsed namespace together with the dumped content; pv and jl are
         the external loaders (parse_value_or_config, json_or_yaml_load): EVERY statement holds for ANY loaders;
-     finding_class : 0 inside the guard; 1-3 the input addresses the group key itself (argv option / environment
-        variable / string-or-null in a config), 5 hyphenated key with a required option, 6 declaration outside
+     finding_class : 0 inside the guard; 1-4 the input addresses the group key itself (argv option / environment
+        variable / string-or-null in a config / another non-mapping in a config), 5 hyphenated key with a
+        required option, 6 declaration outside
         the statement (key with a dot or a leading '-', or nothing left by the signature rules). *)
 From JV Require Import Lib.Base Model.C07Decl Model.C07Parse
   Proofs.C07TableProofs Proofs.C07ParseProofs Proofs.C07Proofs.
@@ -51,7 +52,7 @@ Print Assumptions C07_grouped_styles_agree_on_all_inputs.
 Theorem C07_equiv_tables_same_parse :
   forall (pv jl : str -> val) (gk : str) (T : table) (inp : input),
     leaf_table gk T -> has_dot gk = false ->
-    argv_names_group gk inp = false -> env_names_group gk inp = false -> config_group_text pv gk inp = false ->
+    argv_names_group gk inp = false -> env_names_group gk inp = false -> config_group_nonmap pv gk inp = false ->
     run pv jl (with_load gk T) inp = run pv jl T inp.
 Proof. exact equiv_tables_same_parse. Qed.
 Print Assumptions C07_equiv_tables_same_parse.
@@ -125,11 +126,11 @@ Theorem C07_dotted_whole_group_env_refuted :
 Proof. exact dotted_whole_group_env_refuted. Qed.
 Print Assumptions C07_dotted_whole_group_env_refuted.
 
-(* parse_object({'g': '{"a": 2}'}): the dotted style keeps the string AS the group *)
+(* parse_object({'g': '{"a": 2}'}): rejected by the dotted style, loaded as the group's config by the others *)
 Theorem C07_dotted_group_key_string_refuted :
   exists pv jl gk fs inp,
     finding_class pv gk fs inp = 3%N
-    /\ (exists c d, run pv jl (as_dotted gk (norm fs)) inp = Ok (c, d) /\ lookup gk c = Some (TLeaf (VStr w_json_a2)))
+    /\ is_reject (run pv jl (as_dotted gk (norm fs)) inp) = true
     /\ group_value (run pv jl (as_class_group gk fs) inp) gk w_a = Some (VInt 2).
 Proof. exact dotted_group_key_string_refuted. Qed.
 Print Assumptions C07_dotted_group_key_string_refuted.
@@ -142,6 +143,15 @@ Theorem C07_dotted_group_key_null_refuted :
     /\ dumped (run pv jl (as_class_group gk fs) inp) = Some [].
 Proof. exact dotted_group_key_null_refuted. Qed.
 Print Assumptions C07_dotted_group_key_null_refuted.
+
+(* parse_object({'g': 5}): rejected by the dotted style ("expects a mapping"), the others replace the group by 5 *)
+Theorem C07_group_key_scalar_refuted :
+  exists pv jl gk fs inp,
+    finding_class pv gk fs inp = 4%N
+    /\ is_reject (run pv jl (as_dotted gk (norm fs)) inp) = true
+    /\ (exists c d, run pv jl (as_class_group gk fs) inp = Ok (c, d) /\ lookup gk c = Some (TLeaf (VInt 5))).
+Proof. exact group_key_scalar_refuted. Qed.
+Print Assumptions C07_group_key_scalar_refuted.
 
 (* key my-g, fields f:int (required), a:int=1; parse_args(['--my-g.f=2']): rejected by the inner-parser style
    only; accepted once required_args is prefixed like the dests (the repaired model) *)
